@@ -93,6 +93,7 @@ func runOpenHist(h *OpenHist) []OpenCase {
 		}
 		return fs
 	}
+	wantSeat := -1 // a seat just vacated: the next newcomer takes exactly that one
 	arrive := func(joinNow bool) {
 		fs := freeSeats()
 		if len(fs) == 0 {
@@ -101,6 +102,12 @@ func runOpenHist(h *OpenHist) []OpenCase {
 		id := next
 		next++
 		seat := fs[r.Intn(len(fs))]
+		for _, f := range fs {
+			if f == wantSeat {
+				seat = f
+			}
+		}
+		wantSeat = -1
 		chips := int64(30 + r.Intn(1500))
 		if r.Chance(1, 5) {
 			chips = int64(1 + r.Intn(30))
@@ -199,15 +206,33 @@ func runOpenHist(h *OpenHist) []OpenCase {
 			}
 			if r.Chance(1, 6) && len(a.Players) > 2 {
 				p := a.Players[r.Intn(len(a.Players))]
+				// now and then it is the small blind or the dealer of the hand just played who goes
+				for _, q := range a.Players {
+					if (q.Seat == a.SB || q.Seat == a.Dealer) && r.Chance(1, 3) {
+						p = q
+					}
+				}
 				if d.te.PlayersLeave([]string{pid(p.ID)}) == nil {
 					delete(fresh, p.ID)
 					delete(waiting, p.ID)
 					delete(missed, p.ID)
+					if r.Chance(1, 2) {
+						// a newcomer reserves the very seat that was vacated and does not sit in before the next hand
+						wantSeat = p.Seat
+						arrive(false)
+					}
 				}
 			}
 			// a busted player re-buys
 			for _, p := range a.Players {
-				if p.Bankroll == 0 && r.Chance(1, 2) {
+				if p.Bankroll == 0 && r.Chance(1, 4) {
+					// chips added through the add-on call instead of a new reservation: eligible again like a newcomer (the seat
+					// manager learns of it when the next hand ends; the three-hand bound applies)
+					if d.te.PlayerRedeemChips(pt.JoinPlayer{PlayerID: pid(p.ID), RedeemChips: int64(50 + r.Intn(800)), Seat: -1}) == nil {
+						fresh[p.ID] = true
+						waiting[p.ID] = a.SM.Init && between(a, p.Seat)
+					}
+				} else if p.Bankroll == 0 && r.Chance(1, 2) {
 					if d.te.PlayerReserve(pt.JoinPlayer{PlayerID: pid(p.ID), RedeemChips: int64(50 + r.Intn(800)), Seat: -1}) == nil {
 						fresh[p.ID] = a.SM.Init
 						waiting[p.ID] = a.SM.Init && between(a, p.Seat)
